@@ -40,9 +40,12 @@ type c09Scen struct {
 	Preempt    int         `json:"preempt_permille"`
 	Clients    [][]*c09Req `json:"clients"`
 	AddRoute   bool        `json:"admin_adds_route"`
+	Verbs      bool        `json:"custom_verb_routes,omitempty"` // POST /a/y/{id}:cancel and DELETE /a/x:purge are registered too
 }
 
 var c09URLs = []string{"/a/x", "/a/y", "/a/y/7", "/b/z", "/a/none", "/a/y/7/", "/a/x/", "/a/y/7/extra/", "/a/y/", "/a/v1.0/items", "/a/v1x0/items", "/a/v1.0/items/", "/b/z+z", "/b/zzz"}
+
+var c09VerbURLs = []string{"/a/y/7:cancel", "/a/y/cance", "/a/x:purge", "/a/y/7:other", "/a/y/cance/", "/a/x:purge/"}
 
 func genC09(x *Ctx) *c09Scen {
 	tp := x.Tape
@@ -66,6 +69,7 @@ func genC09(x *Ctx) *c09Scen {
 	sc.UseDefault = tp.Chance(300)
 	sc.Preempt = []int{300, 100, 500}[tp.G(3)]
 	sc.AddRoute = tp.Chance(250)
+	sc.Verbs = tp.Chance(300)
 	maxReq := 4
 	if x.Thorough() {
 		maxReq = 8
@@ -76,6 +80,9 @@ func genC09(x *Ctx) *c09Scen {
 		tp.Repeat(1, maxReq, 600, func(int) {
 			id++
 			r := &c09Req{ID: id, Path: c09URLs[tp.G(len(c09URLs))]}
+			if sc.Verbs && tp.Bool() {
+				r.Path = c09VerbURLs[tp.G(len(c09VerbURLs))]
+			}
 			r.Origin = []string{"http://good.example", "http://good.example", "HTTP://Good.Example", "http://evil.example", ""}[tp.G(5)]
 			switch tp.G(4) {
 			case 0, 1: // preflight
@@ -174,6 +181,10 @@ func c09BuildOpt(sc *c09Scen, byID map[int]*c09Req, extraRoute bool, withCORS bo
 	// literal segments with regular-expression meta characters
 	wsA.Route(wsA.GET("/v1.0/items").To(h("GET /a/v1.0/items")))
 	wsA.Route(wsA.PUT("/v1.0/items").To(h("PUT /a/v1.0/items")))
+	if sc.Verbs {
+		wsA.Route(wsA.POST("/y/{id}:cancel").To(h("POST /a/y/{id}:cancel")))
+		wsA.Route(wsA.DELETE("/x:purge").To(h("DELETE /a/x:purge")))
+	}
 	if extraRoute {
 		wsA.Route(wsA.PUT("/x").To(h("PUT /a/x")))
 	}
